@@ -402,6 +402,8 @@ class Model:
             normalize.with_form(tree)
             normalize.search_loops(tree)
             normalize.unpack_form(tree)
+            tree = normalize.small_forms(tree)
+            normalize.positional_calls(tree)
             ref = _reference()
             if ref is not None and not os.environ.get('VERIF_NO_NORMALIZE'):
                 from . import inline
